@@ -77,6 +77,26 @@ func (c20) Gen(tier string, seed int64, emit func([]Ev)) {
 			for ln := minLen; ln <= 8; ln++ {
 				emit([]Ev{{"op": "desc", "tag": tag, "body": B(c20Body(r, tag, ln))}})
 			}
+			if tag == 5 {
+				// every letter-case spelling of the registered identifier, one-bit neighbours of each letter, and the identifier
+				// followed by additional identification info: only the exact four bytes are Dolby Vision
+				for m := 0; m < 16; m++ {
+					id := []byte("DOVI")
+					for k := 0; k < 4; k++ {
+						if m>>uint(k)&1 != 0 {
+							id[k] |= 0x20
+						}
+					}
+					emit([]Ev{{"op": "desc", "tag": 5, "body": B(append(id, rndBytes(r, m%3)...))}})
+				}
+				for k := 0; k < 4; k++ {
+					for _, bit := range []byte{0x01, 0x10, 0x40, 0x80} {
+						id := []byte("DOVI")
+						id[k] ^= bit
+						emit([]Ev{{"op": "desc", "tag": 5, "body": B(id)}})
+					}
+				}
+			}
 			if tag == 14 || tag == 10 || tag == 127 || tag == 5 || tag == 176 {
 				for k := 0; k < 40; k++ {
 					emit([]Ev{{"op": "desc", "tag": tag, "body": B(c20Body(r, tag, minLen+r.Intn(9)+k%2*r.Intn(24)))}})
